@@ -15,11 +15,18 @@ use std::mem::MaybeUninit;
 use std::num::NonZeroU32;
 use std::ptr;
 use std::ptr::NonNull;
+#[cfg(not(kani))]
 use std::sync::atomic::AtomicPtr;
+#[cfg(not(kani))]
 use std::sync::atomic::AtomicU32;
 use std::sync::atomic::Ordering;
 
 use parking_lot::Mutex;
+
+#[cfg(kani)]
+use crate::verif_hooks::sync::AtomicPtr;
+#[cfg(kani)]
+use crate::verif_hooks::sync::AtomicU32;
 
 const MIN_SHIFT: u32 = 7;
 const U32_BITS: usize = 32;
@@ -214,6 +221,20 @@ fn index(i: u32) -> (usize, usize) {
     memory_consistency_assert!(b < bucket_capacity(a));
     memory_consistency_assert_eq!(i, bucket_capacity(a) as u32 + b as u32);
     (a, b)
+}
+
+/// Verification hook: exposes the private index arithmetic to out-of-tree proof harnesses.
+#[cfg(kani)]
+pub mod verif {
+    pub const MIN_SIZE: u32 = super::MIN_SIZE;
+    pub const NUM_SIZES: usize = super::NUM_SIZES;
+    pub const MAX_INDEX: u32 = super::MAX_INDEX;
+    pub fn index(i: u32) -> (usize, usize) {
+        super::index(i)
+    }
+    pub fn bucket_capacity(a: usize) -> usize {
+        super::bucket_capacity(a)
+    }
 }
 
 /// A default instance makes it easier to create sharded instances.
